@@ -20,6 +20,8 @@ pub fn dec(n: u32, es: u32, x: u32) -> (u128, i32) {
 
 /// round the positive value m * 2^e (+ sticky remainder) to an n-bit posit pattern (bit-string RNE, never zero, never beyond maxpos)
 pub fn enc(n: u32, es: u32, m: u128, e: i32, sticky: bool) -> u32 {
+    // keep at most 64 significant bits (far more than any format here holds); the rest only matters as a sticky flag
+    let (m, e, sticky) = { let l0 = 127 - m.leading_zeros(); if l0 > 63 { let sh = l0 - 63; (m >> sh, e + sh as i32, sticky || (m & ((1u128 << sh) - 1)) != 0) } else { (m, e, sticky) } };
     let l = 127 - m.leading_zeros() as i32;
     let s = l + e;
     let maxs = ((n - 2) << es) as i32;
